@@ -45,3 +45,58 @@ def fkey(x):
     if math.isnan(x):
         return 'nan'
     return x.hex()
+
+
+def run_forked(fn, timeout=900.0):
+    """Run fn() in a forked child and return its (picklable) result: nothing the call does to
+    module-level state, the environment or the cwd of this process survives.  Raises
+    RuntimeError if the child fails or does not finish."""
+    import os
+    import pickle
+    import select
+    import time
+    import traceback
+    r, w = os.pipe()
+    pid = os.fork()
+    if pid == 0:
+        code = 0
+        try:
+            os.close(r)
+            try:
+                payload = {'ok': fn()}
+            except BaseException:
+                payload = {'error': traceback.format_exc()}
+            with os.fdopen(w, 'wb') as f:
+                pickle.dump(payload, f, protocol=pickle.HIGHEST_PROTOCOL)
+        except BaseException:
+            code = 3
+        finally:
+            os._exit(code)
+    os.close(w)
+    chunks = []
+    t_end = time.monotonic() + timeout
+    timed_out = False
+    while True:
+        left = t_end - time.monotonic()
+        if left <= 0:
+            timed_out = True
+            break
+        ready, _, _ = select.select([r], [], [], min(left, 5.0))
+        if ready:
+            b = os.read(r, 1 << 20)
+            if not b:
+                break
+            chunks.append(b)
+    os.close(r)
+    if timed_out:
+        try:
+            os.kill(pid, 9)
+        except OSError:
+            pass
+    os.waitpid(pid, 0)
+    if timed_out:
+        raise RuntimeError('forked call timed out after %.0fs' % timeout)
+    payload = pickle.loads(b''.join(chunks)) if chunks else {'error': 'child died without a result'}
+    if 'error' in payload:
+        raise RuntimeError(payload['error'])
+    return payload['ok']
